@@ -905,6 +905,47 @@ func c17Numbers(snap map[string]recvFile, tr, ext string) []int64 {
 	return nrs
 }
 
+// commonStored tells whether some number is stored for every registered track ("some"/"none"):
+// with "none" no non-empty SegmentTimeline MPD over stored segments exists at all.
+func (r *c17Run) commonStored() (string, string) {
+	var ids []string
+	for id, ts := range r.tracks {
+		if ts.initOK {
+			ids = append(ids, id)
+		}
+	}
+	sort.Strings(ids)
+	cnt := map[int64]int{}
+	var sb strings.Builder
+	for _, id := range ids {
+		seen := map[int64]bool{}
+		var nrs []int64
+		pre := id + "/"
+		for name := range r.snap {
+			if !strings.HasPrefix(name, pre) {
+				continue
+			}
+			base := strings.TrimPrefix(name, pre)
+			n, err := strconv.ParseInt(strings.TrimSuffix(base, filepath.Ext(base)), 10, 64)
+			if err != nil || seen[n] {
+				continue
+			}
+			seen[n] = true
+			nrs = append(nrs, n)
+			cnt[n]++
+		}
+		sort.Slice(nrs, func(i, j int) bool { return nrs[i] < nrs[j] })
+		fmt.Fprintf(&sb, "%s:%v ", id, nrs)
+	}
+	common := "none"
+	for _, c := range cnt {
+		if c == len(ids) && len(ids) > 0 {
+			common = "some"
+		}
+	}
+	return common, strings.TrimSpace(sb.String())
+}
+
 // checkTimeline evaluates (2), (3) and the listed-range part of (5) on a parsed timeline MPD.
 func (r *c17Run) checkTimeline(m *recvMPD) {
 	res := r.res
@@ -943,9 +984,9 @@ func (r *c17Run) checkTimeline(m *recvMPD) {
 			if _, ok := r.snap[rel]; !ok {
 				if !reported { // one report per representation and observation
 					reported = true
-					res.Violate("C17.mpd-agrees-with-storage", r.sig("kind", "listed-segment-not-stored", "history", r.missingHistory(ts, s.Number)),
-						"step %d: MPD lists %d..%d; %s is not stored (track has %v)", r.step, f, l, rel,
-						c17Numbers(r.snap, rep.ID, filepath.Ext(rel)))
+					common, all := r.commonStored()
+					res.Violate("C17.mpd-agrees-with-storage", r.sig("kind", "listed-segment-not-stored", "history", r.missingHistory(ts, s.Number), "complete-number-stored", common),
+						"step %d: MPD lists %d..%d; %s is not stored (tracks store %s)", r.step, f, l, rel, all)
 				}
 				continue
 			}
